@@ -8,6 +8,7 @@
 #include <aws/common/assert.h>
 #include <aws/common/macros.h>
 #include <aws/common/mutex.h>
+#include <aws/common/zero.h>
 
 /*
  * Small Block Allocator
@@ -180,6 +181,15 @@ cleanup:
     return AWS_OP_ERR;
 }
 
+/* Hand a page back to the system. s_sba_free() recognises small blocks by the tags it finds at the page base of any
+ * pointer it is given, so the header must not survive in released memory: a large block later placed over it would be
+ * taken for a small block of this dead page. A plain store right before free() is a dead store that the optimiser
+ * removes, hence aws_secure_zero(). */
+static void s_page_release(struct page_header *page) {
+    aws_secure_zero(page, sizeof(struct page_header));
+    s_aligned_free(page);
+}
+
 static void s_sba_clean_up(struct small_block_allocator *sba) {
     /* free all known pages, then free the working page */
     for (unsigned idx = 0; idx < AWS_SBA_BIN_COUNT; ++idx) {
@@ -189,13 +199,13 @@ static void s_sba_clean_up(struct small_block_allocator *sba) {
             aws_array_list_get_at(&bin->active_pages, &page_addr, page_idx);
             struct page_header *page = page_addr;
             AWS_ASSERT(page->alloc_count == 0 && "Memory still allocated in aws_sba_allocator (bin)");
-            s_aligned_free(page);
+            s_page_release(page);
         }
         if (bin->page_cursor) {
             void *page_addr = s_page_base(bin->page_cursor);
             struct page_header *page = page_addr;
             AWS_ASSERT(page->alloc_count == 0 && "Memory still allocated in aws_sba_allocator (page)");
-            s_aligned_free(page);
+            s_page_release(page);
         }
 
         aws_array_list_clean_up(&bin->active_pages);
@@ -369,8 +379,7 @@ static void s_sba_free_to_bin(struct sba_bin *bin, void *addr) {
             }
         }
         /* ensure that the page tag is erased, in case nearby memory is re-used */
-        page->tag = page->tag2 = 0;
-        s_aligned_free(page);
+        s_page_release(page);
         return;
     }
 
